@@ -139,9 +139,64 @@ def loop_bounds(work):
     return res
 
 
+# signedness-dispatch rule (used-digit clause, structural part): cnl::used_digits<T> must take the signed algorithm exactly
+# when T is a signed NUMBER (numbers::signedness_v<T>), including class-type reps for which std::is_signed is false; the
+# negative-value clause ("bit length of -v-1") is computed by the signed algorithm only.
+DISPATCH = [("int", True), ("unsigned", False), ("std::int8_t", True), ("cnl::int128_t", True), ("cnl::uint128_t", False), ("cnl::wide_integer<200, int>", True),
+            ("cnl::wide_integer<200, unsigned>", False), ("cnl::wide_integer<40, int>", True), ("cnl::elastic_integer<20>", True), ("cnl::elastic_integer<20, unsigned>", False),
+            ("cnl::overflow_integer<int, cnl::saturated_overflow_tag>", True), ("cnl::elastic_integer<150, cnl::wide_integer<31, int>>", True), ("cnl::static_integer<300>", True)]
+
+
+def dispatch_rule(r, work):
+    from vlib import ir
+    src = tc.PRELUDE["clang"] + "".join('extern "C" int ud_%d(%s const& v) { return cnl::used_digits(v); }\nextern "C" int lb_%d(%s const& v) { return cnl::leading_bits(v); }\n' % (i, t, i, t) for i, (t, sg) in enumerate(DISPATCH))
+    p, out = os.path.join(work, "ud.cpp"), os.path.join(work, "ud.ll")
+    open(p, "w").write(src)
+    rc, so, se, cmd = tc.clang_ll(p, out, "o1ni")
+    if rc != 0:
+        raise tc.AnalysisBroken("used_digits TU does not compile: " + se[:1500])
+    mod = ir.parse_module(open(out).read())
+    dem = tc.demangle(list(mod.functions) + [d[1:] for d in mod.declares])
+    edges = {}
+    for n, f in mod.functions.items():
+        edges[n] = set(m.group(1) for lab in f.order for l in f.blocks[lab] for m in re.finditer(r"(?:call|invoke)\s[^@]*@([\w.$]+)\(", l))
+    is_alg = lambda x: re.search(r"cnl::_impl::used_digits_signed<(true|false)>::operator\(\)", dem.get(x, ""))
+    n_ok = 0
+    for i, (t, sg) in enumerate(DISPATCH):
+        for entry in ("ud_%d" % i, "lb_%d" % i):
+            if entry not in mod.functions:
+                r.broke("dispatch rule: entry %s vanished" % entry)
+                continue
+            # frontier: the first used_digits_signed<..>::operator() on every call path from the entry
+            front, seen, st = set(), set(), [entry]
+            while st:
+                x = st.pop()
+                for y in edges.get(x, ()):
+                    if y in seen:
+                        continue
+                    seen.add(y)
+                    m = is_alg(y)
+                    if m:
+                        front.add(m.group(1))
+                    else:
+                        st.append(y)
+            want = "true" if sg else "false"
+            if not front:
+                r.broke("dispatch rule: no used_digits_signed instantiation reachable from %s(%s)" % (entry.split("_")[0], t))
+            elif front != {want}:
+                r.violation("dispatch/%s/%s" % (entry.split("_")[0], t), "cnl::%s(%s): the used-digits algorithm entered is used_digits_signed<%s> but %s is a%s number: %s" % (
+                    "used_digits" if entry.startswith("ud") else "leading_bits", t, ",".join(sorted(front)), t, " signed" if sg else "n unsigned",
+                    "negative values are counted as if they were huge positive ones or as 0 digits" if sg else "the signed algorithm negates an unsigned value"), {"type": t, "frontier": sorted(front)})
+            else:
+                n_ok += 1
+    return n_ok
+
+
 def run(tier, seed, work):
     rng = random.Random(seed)
     r = report.Run(PROP, tier, seed, "other")
+    n_dispatch = dispatch_rule(r, work)
+    common.floor_check(r, "signedness-dispatch instances", n_dispatch, 2 * len(DISPATCH))
     obs = gen_eq()
     ctl = common.controls()
     kern.run_obligations(work, obs + ctl, batch=10)
